@@ -6,7 +6,7 @@ SEQ_MAX = (1 << 40) - 1
 U64 = (1 << 64) - 1
 WINDOWS = ["0", "1", "2", "3", "4", "31", "32", "33", "62", "63", "64", "65", "100", "4294967295"]
 GEN_KINDS = "gex"         # genuine
-FORGE_KINDS = "fFP"       # fail authentication
+FORGE_KINDS = "fFPKO"     # fail authentication, or are turned away before it (K, O)
 
 
 def weff(wcfg):
@@ -87,7 +87,7 @@ def rpd_exhaustive(wcfg, b12, alphabet, maxlen, minlen=1):
             yield rpd_line(wcfg, b12, 0, ms)
 
 
-REQ_ALPHABET = ["g0", "g1", "g2", "g3", "g43", "e1", "f2", "P44", "F0"]
+REQ_ALPHABET = ["g0", "g1", "g2", "g3", "g43", "e1", "f2", "P44", "F0", "K3"]
 
 
 def rpd_random(r):
@@ -280,6 +280,8 @@ def oracle_rpe(line, out):
     if ok != nreq:
         bad.append("%d requests sent through the client API, %d answered 2.05 (codes %s)"
                    % (nreq, ok, summ.get("codes")))
+    if int(summ.get("spivdup", "0")) != 0:
+        bad.append("the server protected two datagrams with the same Partial IV")
     if int(summ.get("handler", "0")) < nreq:
         bad.append("%d requests sent, the request handler ran %s times" % (nreq, summ.get("handler")))
     return bad
